@@ -144,6 +144,36 @@ theorem evalN_ty (e : Expr F) : ∀ (w : Ty) (st : FnState F) (v : Value F), (ev
       | trap => simp at h
     | err => simp at h
     | trap => simp at h
+  | call4 fn a b d e iha ihb ihd ihe =>
+    intro w st v h
+    simp only [evalN] at h
+    rcases ha : argEvalN (typeP ctx σ a) (missOk a) st (fun t => evalN ctx σ t a st) with ⟨r1, s1⟩
+    rw [ha] at h
+    cases r1 with
+    | ok v1 =>
+      simp only at h
+      rcases hb : argEvalN (typeP ctx σ b) (missOk b) s1 (fun t => evalN ctx σ t b s1) with ⟨r2, s2⟩
+      rw [hb] at h
+      cases r2 with
+      | ok v2 =>
+        simp only at h
+        rcases hd : argEvalN (typeP ctx σ d) (missOk d) s2 (fun t => evalN ctx σ t d s2) with ⟨r3, s3⟩
+        rw [hd] at h
+        cases r3 with
+        | ok v3 =>
+          simp only at h
+          rcases he : argEvalN (typeP ctx σ e) (missOk e) s3 (fun t => evalN ctx σ t e s3) with ⟨r4, s4⟩
+          rw [he] at h
+          cases r4 with
+          | ok v4 => exact chk_ty w _ v (by simpa using h)
+          | err => simp at h
+          | trap => simp at h
+        | err => simp at h
+        | trap => simp at h
+      | err => simp at h
+      | trap => simp at h
+    | err => simp at h
+    | trap => simp at h
 
 /-- the table never panics on operands of the types its entries ask for. -/
 def TblNoTrap : Prop :=
@@ -272,6 +302,40 @@ theorem evalN_trap (ht : TblNoTrap ctx) (e : Expr F) : ∀ (w : Ty) (st : FnStat
         rw [hD] at hd
         cases r3 with
         | ok v3 => exact chk_trap w _ (callFn_trap ctx fn _ s3)
+        | err => simp
+        | trap => exact absurd rfl hd
+      | err => simp
+      | trap => exact absurd rfl hb
+    | err => simp
+    | trap => exact absurd rfl ha
+  | call4 fn a b d e iha ihb ihd ihe =>
+    intro w st
+    simp only [evalN]
+    have ha := argEvalN_ok (typeP ctx σ a) (missOk a) st (fun t => evalN ctx σ t a st) (fun t => iha t st)
+    rcases hA : argEvalN (typeP ctx σ a) (missOk a) st (fun t => evalN ctx σ t a st) with ⟨r1, s1⟩
+    rw [hA] at ha
+    cases r1 with
+    | ok v1 =>
+      simp only
+      have hb := argEvalN_ok (typeP ctx σ b) (missOk b) s1 (fun t => evalN ctx σ t b s1) (fun t => ihb t s1)
+      rcases hB : argEvalN (typeP ctx σ b) (missOk b) s1 (fun t => evalN ctx σ t b s1) with ⟨r2, s2⟩
+      rw [hB] at hb
+      cases r2 with
+      | ok v2 =>
+        simp only
+        have hd := argEvalN_ok (typeP ctx σ d) (missOk d) s2 (fun t => evalN ctx σ t d s2) (fun t => ihd t s2)
+        rcases hD : argEvalN (typeP ctx σ d) (missOk d) s2 (fun t => evalN ctx σ t d s2) with ⟨r3, s3⟩
+        rw [hD] at hd
+        cases r3 with
+        | ok v3 =>
+          simp only
+          have he := argEvalN_ok (typeP ctx σ e) (missOk e) s3 (fun t => evalN ctx σ t e s3) (fun t => ihe t s3)
+          rcases hE : argEvalN (typeP ctx σ e) (missOk e) s3 (fun t => evalN ctx σ t e s3) with ⟨r4, s4⟩
+          rw [hE] at he
+          cases r4 with
+          | ok v4 => exact chk_trap w _ (callFn_trap ctx fn _ s4)
+          | err => simp
+          | trap => exact absurd rfl he
         | err => simp
         | trap => exact absurd rfl hd
       | err => simp
